@@ -481,7 +481,7 @@ func size9p(vs ...interface{}) uint32 {
 		case []byte:
 			s += uint32(binary.Size(uint32(0)) + len(v))
 		case *[]byte:
-			s += size9p(uint32(0), *v)
+			s += size9p(*v)
 		case string:
 			s += uint32(binary.Size(uint16(0)) + len(v))
 		case *string:
